@@ -12,6 +12,7 @@ import (
 	"crypto/sha512"
 	"encoding/hex"
 	"fmt"
+	"io"
 	"io/fs"
 	"math/rand/v2"
 	"os"
@@ -50,8 +51,10 @@ func init() {
 			"stores-differ: two stores of any kinds; the first third of the runs goes to store 0 only, later runs are addressed (Context.VCSs, reassigned per run also on a kept Context) to both in the usual or the reversed order or to one of them, so that the stores hold different files; every store is judged after every run, the clauses about the latest run only in the stores the run was addressed to and only when the whole run succeeded. " +
 			"faults: one call of the version-control abstraction fails once or twice during two runs in five, permanently or with an error the store calls retriable (0..2 retries): opening the workspace, reading the candidate file (the existence check), reading the manifest, writing the endorsement file (nothing written), and on the transactional double also the manifest write, the chmod and the commit. " +
 			"store-switch (observed only): a kept Context whose VCS field is pointed at one of two stores before each run. " +
+			"Round-4 cases (numbered after the audit cases, round4.go): unusual-names: histories of 12..30 runs on mem-tx, mem-wt and local whose candidate pool is 2..5 decorations of 1..3 stems, as callers hand names over: with a trailing, leading or embedded line break (LF, CRLF, text-proto content after the break), CR, tab, leading/trailing/double blanks, quotes, backslashes, back-ticks, '#', braces, brackets, ':' ';' ',', '%' verbs, control characters and escape sequences, invisible and non-ASCII characters, 200-byte names, and names the store or the manifest cannot carry (NUL and more than 255 bytes on local, invalid UTF-8 everywhere: those runs must fail and leave the store faithful); ReleaseBranch, Commit, half of the snapshot image names and a quarter of the output directories come from the same alphabet; the run's timestamp is in one run of three handed over in another zone (+14h, -12h, +5:45) and sometimes lies in the year 1, 1677, 1969, 2262 or 9999. " +
+			"option-matrix: histories of 16..40 runs over at most 4 names in which every run draws its whole output.Options (overwrite x keep_going (0.3/0.5/0.9) x quiet/normal/verbose/use-logs) and, one run in eight, a dry or a measurement-only run, besides snapshot mode, scripted conflicts with retries and a concurrent landing (mem-tx) and failed endorsement writes (mem-wt); half of them from one kept Context (options value replaced or changed in place). " +
 			"Oracle after every run, over the files visible through the version-control abstraction: every manifest parses; no path and no digest twice; every entry's path (relative to the manifest) names a file that decodes as a VMLaunchEndorsement whose signed golden measurement carries the entry's digest; after a successful manifest-mode run the image's SHA-384 maps to <candidate>.binarypb and that file signs this digest with this run's timestamp; after a run without overwrite every *.binarypb that existed before is byte-identical. " +
-			"non-trivial = the run met a manifest: distinct (store kind, relation of the request to the manifest before the run {fresh, path-held, digest-held, same-entry, path-and-digest-in-different-entries}, target file existed, overwrite, outcome) cells, plus (landed run's relation and outcome, retried run's relation, overwrite, outcome) for runs that raced, (caller mode, image differs from the Context's first, relation, outcome) for runs from a reused Context, plus every distinct abstract state the closures reached; audit cases add the store kind's tag (other histories in flight / another history's calls inside this run's commit phase; mixed callers; one of two stores, two stores in the same or in different states; the faulted call) to the run cells, plus (store, caller, dry or real, who changed the store last, result), (VCSs kinds, file exists in first/second store, overwrite) for runs addressed to two different stores and (store, faulted call, permanent/retriable, file existed, overwrite, retries, result) for faults that fired",
+			"non-trivial = the run met a manifest: distinct (store kind, relation of the request to the manifest before the run {fresh, path-held, digest-held, same-entry, path-and-digest-in-different-entries}, target file existed, overwrite, outcome) cells, plus (landed run's relation and outcome, retried run's relation, overwrite, outcome) for runs that raced, (caller mode, image differs from the Context's first, relation, outcome) for runs from a reused Context, plus every distinct abstract state the closures reached; round-4 cases add (store, kind of name, manifest already listed an unusual name, relation, overwrite, result) and (store, overwrite, keep_going, verbosity, real/dry/measurement-only/snapshot, candidate file free / signs the same image / signs another image, result), with floors for every overwrite x keep_going pair meeting each of the three candidate-file states; audit cases add the store kind's tag (other histories in flight / another history's calls inside this run's commit phase; mixed callers; one of two stores, two stores in the same or in different states; the faulted call) to the run cells, plus (store, caller, dry or real, who changed the store last, result), (VCSs kinds, file exists in first/second store, overwrite) for runs addressed to two different stores and (store, faulted call, permanent/retriable, file existed, overwrite, retries, result) for faults that fired",
 		Assumptions: []string{
 			"entry paths are resolved relative to the directory of the manifest (the repository stores the basename)",
 			"the closure abstracts from create times, signature bytes and snapshot-mode files; it is exhaustive for its pool only if endorse's behaviour does not depend on those",
@@ -67,6 +70,8 @@ func init() {
 			"a context without output.Options gives no overwrite permission",
 			"a fault of a single call is injected before the call reaches the store (nothing of that call happens); on the stores that write through only calls before the first write of a run are failed",
 			"a run is addressed to the stores the caller put into Context.VCSs (or Context.VCS of a fresh Context); a kept Context whose VCS field alone is reassigned still endorses into the store of its first run (VirtualFirmware keeps it in VCSs) — recorded under store-switch-observation, not judged",
+			"a candidate name is any string the caller hands over; names that contain '/' only do so as well-formed sub-directory prefixes (no empty, '.' or '..' segments: those are the respelling case above); a name the store cannot use as a file name or the manifest cannot carry as a string makes the run fail, which is not judged beyond the clauses that hold after any run",
+			"keep_going, the verbosity options, ReleaseBranch and Commit are settings of a run like any other: a run made with them is a run of the history, judged by its result exactly like the others (a run that reports success in manifest mode has written the file its digest maps to); a measurement-only run, like a dry run, writes nothing the manifest has to index",
 			"signing uses the repository's development keys (memkm/memca test-only instances); verdicts do not depend on key values",
 		},
 		ShardsQuick: 8, ShardsThor: 16, TimeoutS: 600, TimeoutThor: 3000, Run: run,
@@ -198,6 +203,15 @@ type action struct {
 	tagAfter func() string // evaluated after the run, appended to tag
 	viaVCS   int           // store-switch probe: the caller assigns Context.VCS = store viaVCS-1 and nothing else
 	who      string        // which caller made the run (evidence and witness)
+
+	// dimensions of the round-4 cases (round4.go); the zero values are the behaviour of all other cases
+	keepGoing   bool   // output.Options.KeepGoing (--keep_going)
+	verb        string // output.Options verbosity: "" quiet, normal (Out/Err sinks), verbose, use-logs
+	measureOnly bool   // Context.MeasurementOnly: nothing is signed or written, the manifest need not index this run
+	branch      string // Context.ReleaseBranch
+	commit      []byte // Context.Commit
+	nameKind    string // what is unusual about the candidate name (evidence); "" for the names of namePool
+	zone        string // the run's timestamp is handed over in this zone / far from the present (evidence)
 }
 
 func (a action) String() string {
@@ -222,6 +236,21 @@ func (a action) String() string {
 	}
 	if a.noOpts {
 		s += " (context without output options)"
+	}
+	if a.keepGoing {
+		s += " keep_going"
+	}
+	if a.verb != "" {
+		s += " output=" + a.verb
+	}
+	if a.measureOnly {
+		s += " measurement_only"
+	}
+	if a.branch != "" {
+		s += fmt.Sprintf(" release_branch=%q", a.branch)
+	}
+	if a.zone != "" {
+		s += " timestamp-given-as=" + a.zone
 	}
 	if a.freshT {
 		s += " (through a new localnonvcs.T)"
@@ -274,6 +303,7 @@ type env struct {
 	lastErr       error  // result of the latest run made by stepOn
 	light         bool   // runs are made from several goroutines: panics are recovered here, not by core.Guard
 	au            auditStats
+	r4            r4Stats
 }
 
 // session is a caller that keeps one endorse.Context (and possibly one context.Context, one
@@ -350,7 +380,7 @@ func (e *env) endorse(i int, gname string, w *world, a action, ts time.Time, ses
 	if a.viaVCS > 0 {
 		ec.VCS = w.stores[a.viaVCS-1].VCS()
 	}
-	ec.DryRun = a.dry
+	ec.DryRun, ec.MeasurementOnly, ec.ReleaseBranch, ec.Commit = a.dry, a.measureOnly, a.branch, a.commit
 	image := e.images[a.img]
 	if ses != nil && ses.mode == "ctx+buf" {
 		if ses.buf == nil {
@@ -369,16 +399,16 @@ func (e *env) endorse(i int, gname string, w *world, a action, ts time.Time, ses
 	case ses == nil && a.noOpts:
 		ctx = endorse.NewContext(keys.NewContext(context.Background(), e.kc), ec)
 	case ses == nil:
-		ctx = endorse.NewContext(output.NewContext(keys.NewContext(context.Background(), e.kc), &output.Options{Overwrite: a.ow, Quiet: true}), ec)
+		ctx = endorse.NewContext(output.NewContext(keys.NewContext(context.Background(), e.kc), optionsFor(a)), ec)
 	case ses.ec == nil:
 		ses.ec, ses.firstImg = ec, a.img
-		ses.opts = &output.Options{Overwrite: a.ow, Quiet: true}
+		ses.opts = optionsFor(a)
 		ses.ctx = endorse.NewContext(output.NewContext(keys.NewContext(context.Background(), e.kc), ses.opts), ec)
 		ctx = ses.ctx
 	case ses.mode == "struct":
-		ctx = endorse.NewContext(output.NewContext(keys.NewContext(context.Background(), e.kc), &output.Options{Overwrite: a.ow, Quiet: true}), ec)
+		ctx = endorse.NewContext(output.NewContext(keys.NewContext(context.Background(), e.kc), optionsFor(a)), ec)
 	default:
-		ses.opts.Overwrite = a.ow
+		setOptions(ses.opts, a) // the caller's options value is changed in place
 		ctx = ses.ctx
 	}
 	if ses != nil {
@@ -391,6 +421,28 @@ func (e *env) endorse(i int, gname string, w *world, a action, ts time.Time, ses
 	}
 	m := e.c.Guard(i, entryPoint, gname, core.Budget{}, func() { err = endorse.VirtualFirmware(ctx) })
 	return err, m.Panicked
+}
+
+// optionsFor is the output.Options a caller builds for the run: quiet with the overwrite setting for
+// every case but those that vary the other options (round4.go).
+func optionsFor(a action) *output.Options {
+	o := &output.Options{}
+	setOptions(o, a)
+	return o
+}
+
+func setOptions(o *output.Options, a action) {
+	*o = output.Options{Overwrite: a.ow, KeepGoing: a.keepGoing}
+	switch a.verb {
+	case "":
+		o.Quiet = true
+	case "normal":
+		o.Out, o.Err = io.Discard, io.Discard
+	case "verbose": // debug output goes to the worker's stdout, which nobody reads
+		o.Verbose, o.Out = true, io.Discard
+	case "use-logs": // the dependency's logger, to the worker's stderr
+		o.UseLogs = true
+	}
 }
 
 // landed is a concurrent run that went through while another run's submit attempt was in flight.
@@ -477,7 +529,7 @@ func (e *env) account(i int, gname string, w *world, s store, a action, ts time.
 	c := e.c
 	nf := 0
 	// a dry run and a run that was not addressed to this store write nothing the manifest has to index
-	st := &step{outDir: a.outDir, base: a.base(), digest: e.digests[a.img], overwrite: a.ow, snapshot: a.snapshot || a.dry || a.skip, ts: ts, err: err}
+	st := &step{outDir: a.outDir, base: a.base(), digest: e.digests[a.img], overwrite: a.ow, snapshot: a.snapshot || a.dry || a.skip || a.measureOnly, ts: ts, err: err}
 	class := mergeClass(pre, st)
 	_, targetExists := pre[path.Join(a.outDir, st.base)]
 	fs := judge(pre, post, st, &e.st)
@@ -527,6 +579,8 @@ func (e *env) account(i int, gname string, w *world, s store, a action, ts time.
 		outcome = "failed-on-non-regular-target"
 	case len(w.stores) > 1:
 		outcome = "failed-in-other-store"
+	case nameNotStorable(s.Kind(), a):
+		outcome = "failed-name-not-storable"
 	default:
 		outcome = "failed-other"
 		if !e.observeOnly {
@@ -545,6 +599,11 @@ func (e *env) account(i int, gname string, w *world, s store, a action, ts time.
 		c.Count("dry-runs/"+outcome, 1)
 		c.Cell("%s|dry-run|%s|%s", s.Kind()+tag+a.tag, class, outcome)
 		return nf, "dry-run", outcome
+	}
+	if a.measureOnly {
+		c.Count("measurement-only-runs/"+outcome, 1)
+		c.Cell("%s|measurement-only|%s|%s", s.Kind()+tag+a.tag, class, outcome)
+		return nf, "measurement-only", outcome
 	}
 	if a.snapshot {
 		c.Count("snapshot-mode-runs", 1)
@@ -963,7 +1022,8 @@ func run(c *core.Ctx) {
 	kinds := []string{"mem-tx", "local", "mem-wt", "multi", "local-links", "mem-tx-race"}
 	const nclosure = 4
 	base := nclosure + nh + nalias
-	total := base + e.auditCases()
+	base4 := base + e.auditCases()
+	total := base4 + e.round4Cases()
 	for i := 0; i < total; i++ {
 		if !c.Mine(i) {
 			continue
@@ -985,11 +1045,14 @@ func run(c *core.Ctx) {
 			e.history(i, kinds[i%len(kinds)])
 		case i < base:
 			e.aliasHistory(i)
-		default:
+		case i < base4:
 			e.auditCase(i, i-base)
+		default:
+			e.round4Case(i, i-base4)
 		}
 	}
 	e.auditEvidence()
+	e.round4Evidence()
 	c.Count("manifest-entries-checked", e.st.entriesChecked)
 	c.Count("entry-files-with-valid-signature", e.st.sigValid)
 	c.Count("entry-files-with-invalid-signature(not judged)", e.st.sigInvalid)
